@@ -88,6 +88,11 @@ def run(ctx):
     from checks.c10 import load
 
     prog, S, M = load(ctx.repo)
+
+    from sa.xmlchemy_model import ALL_PARTS, mechanism_gate  # noqa: F401
+
+
+    mechanism_gate(ctx, M, ("get_or_add", "change_to", "adder", "install", "remover"))
     T = Types(prog, M)
     E = Effects(prog, S, M, T)
     ctx.level = "other"
